@@ -656,7 +656,78 @@ def run_getattr(w) -> None:
                 loaded.unload()
 
 
+REPLACED_HOOK_SOURCE = '''
+import icontract
+
+
+class OnlyFunctionContracts(icontract.DBC):
+    @icontract.require(lambda x: x > 0)
+    def f(self, x):
+        return x
+
+
+@icontract.invariant(lambda self: self.x >= 0)
+class FirstInvariantByDecorator(icontract.DBC):
+    def __init__(self):
+        self.x = 1
+
+
+@icontract.invariant(lambda self: self.x < 100)
+@icontract.invariant(lambda self: self.x >= 0, check_on=icontract.InvariantCheckEvent.SETATTR)
+class TwoInvariantsByDecorator(icontract.DBC):
+    def __init__(self):
+        self.x = 1
+
+
+class Derived(FirstInvariantByDecorator):
+    pass
+
+
+@icontract.invariant(lambda self: self.x != 7)
+class DerivedWithOwn(FirstInvariantByDecorator):
+    pass
+
+
+@icontract.invariant(lambda self: True)
+class Plain:
+    """Not created through the meta-class: nothing to announce."""
+
+
+CREATED = [OnlyFunctionContracts, FirstInvariantByDecorator, TwoInvariantsByDecorator, Derived, DerivedWithOwn]
+'''
+
+
+def run_replaced_hook(w) -> None:
+    """An integrator may REPLACE the registration hook (not wrap it): the announcements do not depend on what the library's own default
+    hook would have remembered. Every class created through the meta-class is announced exactly once, whoever gives it its invariants."""
+    import icontract._metaclass  # pylint: disable=import-outside-toplevel
+
+    announced = []  # type: List[Any]
+    current = icontract._metaclass._register_for_hypothesis
+    icontract._metaclass._register_for_hypothesis = announced.append
+    try:
+        loaded = prog.load_source(REPLACED_HOOK_SOURCE, w.scratch())
+    finally:
+        icontract._metaclass._register_for_hypothesis = current
+    try:
+        for cls_obj in loaded.module.CREATED:
+            n = sum(1 for c in announced if c is cls_obj)
+            w.count("classes_announced", n)
+            w.count("classes_announced_to_a_replaced_hook")
+            w.case(("replaced-hook", cls_obj.__name__))
+            if n != 1:
+                w.violation("C18/class-announced-{}-times".format(n if n < 2 else "several"), "with the registration hook replaced, class {} was announced "
+                            "{} times".format(cls_obj.__name__, n), {"replaced_hook": cls_obj.__name__})
+        if any(c is loaded.module.Plain for c in announced):
+            w.violation("C18/library-class-announced", "a plain class given an invariant was announced although the meta-class did not create it",
+                        {"replaced_hook": "Plain"})
+    finally:
+        loaded.unload()
+
+
 def run(w) -> None:
+    if w.shard == 3 % w.nshards:
+        run_replaced_hook(w)
     install_hook()
     if w.shard == 2 % w.nshards:
         run_getattr(w)
@@ -674,6 +745,9 @@ def replay(case, w) -> None:
     install_hook()
     if "getattr" in case:
         run_getattr(w)
+        return
+    if "replaced_hook" in case:
+        run_replaced_hook(w)
         return
     if "post_hoc" in case:
         run_post_hoc(w)
